@@ -101,6 +101,9 @@ def classify(P, f, i, n, depth=0, enumerated=False):
                 cur_i, cur = pi, p
                 continue
             if m in SORTING_ADAPTORS or (collected and m.startswith("sort")):
+                tie = _sort_ties(P, f, p)
+                if tie:
+                    return "sensitive", tie, "sorted-with-ties"
                 return "insensitive", "sorted (`%s`) before it is used" % m, None
             if m in ("collect", "unzip", "partition", "collect_vec"):
                 t = p.get("t", "")
@@ -201,6 +204,32 @@ def _own_from_iter(P, t):
     return hits[0], hits[0].params[0]["local"]
 
 
+def _sort_ties(P, f, sort_call):
+    """a sort removes the hash order only where its comparison separates the elements.  Positive evidence that it does not: the key
+    is a source position (Pos, or the generic original node of the type system) and the ordering of positions never reads the file
+    component — elements at the same line/column of different files (or all at the default position) tie and keep hash order."""
+    from prov import Prov
+    closures = [a for a in sort_call.get("args", []) if a.get("k") == "Closure"]
+    if not closures:
+        return None
+    pv = Prov(f)
+    a = set()
+    for c in closures:
+        a |= pv.atoms(c["body"])
+    by_pos = any(x[0] == "call" and x[1].split("::")[-1] in ("original_node_ref", "position", "pos") for x in a) or \
+        any(x[0] == "field" and x[2] in ("position", "pos") for x in a)
+    if not by_pos:
+        return None
+    cmps = [g for g in P.trait_impls("core::cmp::Ord", "cmp") + P.trait_impls("core::cmp::PartialOrd", "partial_cmp") if (g.self_adt or "").endswith("::Pos") and not g.derived]
+    if not cmps:
+        return None
+    from facts import field_reads
+    if any(fld == "file" for g in cmps for _, fld in field_reads(g)):
+        return None
+    return ("sorted (`%s`) by source position, but the ordering of positions (%s) never reads the file: elements at the same line and column of different "
+            "files - or all at the default position, as on the introspection route - tie and keep the hash order" % (sort_call["method"], short(cmps[0].path)))
+
+
 def follow_local(P, f, lid, let_i, depth, enumerated, collected):
     """the order-carrying value was bound to a local: it is harmless iff it is sorted before any use that exposes its order,
     or every such use is itself order-insensitive"""
@@ -215,6 +244,9 @@ def follow_local(P, f, lid, let_i, depth, enumerated, collected):
         par = acc[pj][0] if pj >= 0 else {}
         if par.get("k") == "MethodCall" and par.get("recv") is x:
             if par["method"].startswith("sort"):
+                tie = _sort_ties(P, f, par)
+                if tie:
+                    return "sensitive", tie, "sorted-with-ties"
                 if worst is None:
                     return "insensitive", "bound to a local that is sorted (`%s`) before any other use" % par["method"], None
                 break
